@@ -260,6 +260,7 @@ func judgeRoundTrip(c *cryptgen.Case, b *cryptgen.Built, out []byte) *harness.Fa
 //	"splitdec"  encrypted as a whole; the encrypted init and the encrypted media are then decoded SEPARATELY
 //	            (the senc boxes are parsed without a moov in sight) and decrypted with the init given aside
 //	            (mp4ff-decrypt -init)
+//	"inmem"     the decoded objects are encrypted and decrypted in place, without writing and re-reading them
 //	"splitenc"  the init alone is protected first; the media alone is encrypted with the protection data
 //	            extracted from the encrypted init (mp4ff-encrypt -init), then decrypted as in "splitdec"
 type rtCase struct {
@@ -356,6 +357,45 @@ func decryptInitAlone(encInit []byte) ([]byte, *harness.Fail) {
 	return out.Bytes(), nil
 }
 
+// roundTripInMemory encrypts and decrypts the SAME decoded objects without writing and re-reading them in between
+// (a packager that protects and a test player that unprotects in one process): InitProtect, EncryptFragment,
+// DecryptInit, DecryptSegment, then one Encode.
+func roundTripInMemory(clear []byte, c *cryptgen.Case) ([]byte, *harness.Fail) {
+	f, err := mp4.DecodeFile(bytes.NewReader(clear))
+	if err != nil || f.Init == nil {
+		return nil, harness.Failf("C06|DecodeFile(clear input)|error", "%v", err)
+	}
+	psshBoxes, err := mp4.PsshBoxesFromBytes(c.Pssh)
+	if err != nil {
+		return nil, harness.Failf("C06|PsshBoxesFromBytes|error", "%v", err)
+	}
+	ipd, err := mp4.InitProtect(f.Init, c.Key, c.IV, c.Scheme, mp4.UUID(c.KID), psshBoxes)
+	if err != nil {
+		return nil, harness.Failf("C06|InitProtect|error on valid input", "%v", err)
+	}
+	for _, s := range f.Segments {
+		for _, fr := range s.Fragments {
+			if err := mp4.EncryptFragment(fr, c.Key, c.IV, ipd); err != nil {
+				return nil, harness.Failf("C06|EncryptFragment|error on valid input", "%v", err)
+			}
+		}
+	}
+	di, err := mp4.DecryptInit(f.Init)
+	if err != nil {
+		return nil, harness.Failf("C06|DecryptInit(in memory)|error", "%v", err)
+	}
+	for _, seg := range f.Segments {
+		if err := mp4.DecryptSegment(seg, di, c.Key); err != nil {
+			return nil, harness.Failf("C06|DecryptSegment(in memory)|error", "%v", err)
+		}
+	}
+	var out bytes.Buffer
+	if err := f.Encode(&out); err != nil {
+		return nil, harness.Failf("C06|File.Encode(after in-memory round trip)|error", "%v", err)
+	}
+	return out.Bytes(), nil
+}
+
 func checkRoundTrip(rc rtCase) *harness.Fail {
 	c := rc.Case
 	b, err := c.Build()
@@ -391,6 +431,13 @@ func checkRoundTrip(rc rtCase) *harness.Fail {
 		}
 		return judgeRoundTrip(&c, b, append(outInit, outMedia...))
 	}
+	if rc.Mode == "inmem" {
+		out, f := roundTripInMemory(b.File, &c)
+		if f != nil {
+			return f
+		}
+		return judgeRoundTrip(&c, b, out)
+	}
 	enc, f := encryptLikeCLI(b.File, &c)
 	if f != nil {
 		return f
@@ -410,7 +457,7 @@ func checkRoundTrip(rc rtCase) *harness.Fail {
 func TestRoundTrip(t *testing.T) {
 	harness.RunRapid(t, "roundtrip", func(rt *rapid.T) {
 		c := rtCase{Case: cryptgen.Gen(rt, cryptgen.GenOpt{Avoid: avoidKnown})}
-		c.Mode = rapid.SampledFrom([]string{"", "", "splitdec", "splitenc"}).Draw(rt, "mode")
+		c.Mode = rapid.SampledFrom([]string{"", "", "splitdec", "splitenc", "inmem"}).Draw(rt, "mode")
 		raw, _ := json.Marshal(c)
 		mode := c.Mode
 		if mode == "" {
